@@ -49,6 +49,7 @@ type Fact struct {
 
 type Oblig struct {
 	fastTried bool
+	replayPanic bool // pre of a library call that panics when violated (requires[panics])
 	name   string
 	kind   string
 	fn     string
